@@ -42,10 +42,16 @@ pub fn seam_selftest() -> Result<(), String> {
             std::fs::create_dir_all(format!("{r2}/d/e"))?;
             std::fs::write(format!("{r2}/d/e/f"), "hello")?;
             assert!(std::path::Path::new(&format!("{r2}/d/e/f")).exists());
-            // the file-system clock stands still for processes with an even entropy seed
+            // the simulated file-system clock: stands still for seeds 0, 2, 4 (mod 8), runs
+            // backwards for 6 and 7, is skewed per file for 3, is the real one for 1 and 5
             let mtime = std::fs::metadata(format!("{r2}/d/e/f"))?.modified()?;
             let frozen = mtime == std::time::UNIX_EPOCH + std::time::Duration::from_secs(1_700_000_000);
-            assert_eq!(frozen, seed % 2 == 0, "simulated file-system clock");
+            assert_eq!(frozen, matches!(seed % 8, 0 | 2 | 4), "simulated file-system clock (standing still)");
+            if matches!(seed % 8, 6 | 7) {
+                // a.gom was written before d/e/f, so on a clock running backwards it is *newer*
+                let older = std::fs::metadata(format!("{r2}/a.gom"))?.modified()?;
+                assert!(older > mtime, "simulated file-system clock (running backwards)");
+            }
             let hs: std::collections::HashSet<u32> = (0..16).collect();
             let order: Vec<u32> = hs.into_iter().collect();
             println!("captured");
